@@ -66,8 +66,14 @@ pub fn compare(exp: &Exp, d: &Delta, home: u32, sem: bool, what: &str, cx: &mut 
     let matches = |want: &[(usize, usize, Rmw, usize)]| -> bool {
         got.len() == want.len()
             && got.iter().zip(want.iter()).all(|(g, e)| {
+                // what is compared is the change of the value, not the instruction used for it
                 let inside = g.addr >= e.0 && g.addr < e.0 + e.1.max(1);
-                inside && g.kind == AKind::Rmw(e.2) && g.arg == e.3
+                let want_delta = match e.2 {
+                    Rmw::Add => e.3 as isize,
+                    Rmw::Sub => -(e.3 as isize),
+                    _ => return false,
+                };
+                inside && g.delta() == want_delta
             })
     };
     let mut ok = matches(&exp.rmw);
@@ -77,7 +83,7 @@ pub fn compare(exp: &Exp, d: &Delta, home: u32, sem: bool, what: &str, cx: &mut 
     }
     if !ok {
         let f = if sem { Ctx::fail_derail } else { Ctx::fail };
-        f(cx, if sem { home } else { COUNT | (home & (THIN | COW | UNWRAP)) }, "rmw-traffic", format!("{}: counter writes differ: expected {:?} (block,size,kind,operand), got {:?}", what, exp.rmw, got.iter().map(|g| (g.addr, g.kind, g.arg)).collect::<Vec<_>>()));
+        f(cx, if sem { home } else { COUNT | (home & (THIN | COW | UNWRAP)) }, "rmw-traffic", format!("{}: counter writes differ: expected {:?} (block,size,kind,operand), got {:?}", what, exp.rmw, got.iter().map(|g| (g.addr, g.kind, g.old, g.new)).collect::<Vec<_>>()));
     }
     // --- destructors
     let mut a = d.drops.clone();
